@@ -434,6 +434,8 @@ pub mod stdlib {
             ) -> Result<Value, ExecutionError> {
                 parameters.finish()?;
                 let node = graph.add_graph_node();
+                #[cfg(feature = "verif")]
+                crate::verif::emit(|| crate::verif::json!({"e": "gnode", "id": node.index()}));
                 Ok(Value::GraphNode(node))
             }
         }
